@@ -126,6 +126,22 @@ def run(ctx):
         r = common.ser_res_bytes(lambda: codec.encode(t, m)[0])
         enc_cases.append((f'({CMODE[m]}, {core.cstr(t)})', czl(r)))
         ctx.case(('encm', m, t), nontrivial=L > 0)
+    # ---- purity: same text encoded repeatedly (and after plain-codec calls) must give the same octets
+    for k in range(300 if ctx.thorough else 100):
+        L = rng.randint(1, 24)
+        t = text_of([rng.choice(plain_septets) for _ in range(L)])
+        outs = []
+        for j in range(3):
+            if (j + k) % 2:
+                plain.encode(t)
+            r = common.ser_res_bytes(lambda: codec.encode(t, 'strict')[0])
+            enc_cases.append((f'(Strict, {core.cstr(t)})', czl(r)))
+            outs.append(r)
+        ctx.case(('purity', t))
+        if outs[0] != outs[1] or outs[1] != outs[2]:
+            ctx.violation(f'packed encode of {t!r} changes between repeated calls: {outs}',
+                          {'function': 'gsm0338_packed.encode', 'input': [ord(c) for c in t], 'observed': outs[2], 'expected': ref_pack(list(plain.encode(t)[0]))})
+    ctx.count('purity_repeated_calls', 300 if ctx.thorough else 100)
     ctx.sample({'text': 'H€', 'septets': list(plain.encode('H€')[0]), 'packed_impl': list(codec.encode('H€')[0]),
                 'packed_reference': ref_pack(list(plain.encode('H€')[0]))})
     ctx.sample({'seven_septets': 'abcdefg', 'decoded_back': codec.decode(codec.encode('abcdefg')[0])[0]})
